@@ -12,15 +12,22 @@ func init() {
 
 var vC18Keys = [...]string{"0", "a~1b", "a/b", "10", "m~n", "k"}
 
+// number-like keys that are not the canonical spelling of their integer
+var vC18OddKeys = [...]string{"007", "+1", "-0", "00", "0", "-1"}
+
 func vC18KeyObj(nkeys int) jsonObject {
 	o := jsonObject{}
+	keys := vC18Keys
+	if vParam("KEYSET", 0) == 1 {
+		keys = vC18OddKeys
+	}
 	for i := 0; i < nkeys; i++ {
 		switch vChoice(3) {
 		case 0:
 		case 1:
-			o[vC18Keys[i]] = vNum()
+			o[keys[i]] = vNum()
 		default:
-			o[vC18Keys[i]] = vNumArray(1)
+			o[keys[i]] = vNumArray(1)
 		}
 	}
 	return o
